@@ -32,6 +32,36 @@ PROPS = {
     },
 }
 
+PROPS["C03"] = {
+    "level": "exploration",
+    "scenarios": {"callrcu": {"quick": 150000, "thorough": 4000000, "thorough_time": 900}},
+    "rule": "one evaluation = one seeded simulated execution of 1-5 threads mixing call_rcu() (plain, self-freeing, re-enqueueing up to 2 deep, "
+            "reclaiming an unpublished object), read-side sections, per-thread helpers (futex-woken or RT polling) created and freed with callbacks pending, "
+            "per-CPU helpers on 1/2/4 simulated CPUs with migrating sched_getcpu, free_all_cpu_call_rcu_data and single per-CPU teardown, then three rcu_barrier() calls. "
+            "Oracles: exactly-once per rcu_head with the registered pointer, callback entry not before every section that began before call_rcu() ended, tracked-arena use-after-free. "
+            "Non-trivial = some callback's grace period overlapped an open section or some barrier covered a pending callback; distinct = distinct event-log fingerprints.",
+    "assumptions": COMMON_ASSUME + ["qsbr: call_rcu_data_free()/free_all_cpu_call_rcu_data() are issued from an offline thread (they wait for a helper that may be inside synchronize_rcu())"],
+    "expect_probes": ["os.futex_wait_blocked", "getcpu_migrate", "os.futex_enosys", "callrcu.run_with_callbacks"],
+}
+PROPS["C04"] = {
+    "level": "exploration",
+    "scenarios": {"barrier": {"quick": 150000, "thorough": 4000000, "thorough_time": 900}},
+    "rule": "same generator as C03 weighted towards concurrent rcu_barrier() callers (qsbr: online and offline), with helper creation/destruction in flight. "
+            "Oracle at every rcu_barrier() return: every callback whose call_rcu() had returned before the barrier was entered has finished executing; deadlock detector and quiet-phase bound for termination. "
+            "Non-trivial = a barrier returned after waiting for at least one callback that finished during the call; distinct = distinct event-log fingerprints.",
+    "assumptions": COMMON_ASSUME,
+    "expect_probes": ["os.futex_wait_blocked", "callrcu.run_with_callbacks"],
+}
+PROPS["C14"] = {
+    "level": "exploration",
+    "scenarios": {"poll": {"quick": 150000, "thorough": 4000000, "thorough_time": 900}},
+    "rule": "one evaluation = one seeded simulated execution in which several threads take start_poll_synchronize_rcu() handles at arbitrary points of in-flight grace periods and poll them, "
+            "next to readers, updaters and call_rcu() users. Oracles: a true poll implies every section begun before that start_poll call has ended; once true never false again; every handle becomes true within the quiet-phase bound. "
+            "Non-trivial = a handle's wait overlapped an open section; distinct = distinct event-log fingerprints.",
+    "assumptions": COMMON_ASSUME,
+    "expect_probes": ["os.futex_wait_blocked"],
+}
+
 NOT_APPLICABLE = {}
 
 _SIM_NOTE = ("Trusted base: the usim runtime (scheduler, TSO model, simulated OS, tracked arena), gcc's access instrumentation, "
@@ -46,4 +76,13 @@ MANIFEST_TEXT = {
     "C02": {"design_ref": "3.2",
             "level_text": "Seeded exploration with futex/poll fault injection and the ENOSYS fallback; a lost wake-up or deadlock is the scheduler's no-runnable-thread condition, and bounded progress is required once faults stop.",
             "level_note": _SIM_NOTE + " Liveness is checked as bounded progress (400000 steps / 60 simulated s) under a fair scheduler after the last operation is issued."},
+    "C03": {"design_ref": "3.3",
+            "level_text": "Seeded exploration over helper assignments (default, per-thread, per-CPU, RT or futex-woken), teardown with pending callbacks, re-enqueueing callbacks, futex/poll/getcpu faults; exactly-once and grace-period interval oracles on every callback.",
+            "level_note": _SIM_NOTE},
+    "C04": {"design_ref": "3.4",
+            "level_text": "Seeded exploration of concurrent call_rcu()/rcu_barrier() callers and helper churn; set-inclusion oracle at every barrier return plus deadlock/bounded-progress detection.",
+            "level_note": _SIM_NOTE},
+    "C14": {"design_ref": "3.14",
+            "level_text": "Seeded exploration of handles taken at arbitrary points of in-flight grace periods; interval oracle on every true poll, monotonicity, bounded eventual completion.",
+            "level_note": _SIM_NOTE},
 }
